@@ -311,6 +311,14 @@ Definition wf_tree (t : tree) : bool := sorted_names (map n_name t) && forallb w
 
 (* ------------------------------------------------------------------ TreeModifier *)
 
+(* Vec::sort_by(|a, b| a.name().cmp(&b.name())): stable sort by name (insertion sort) *)
+Fixpoint insert_node (n : node) (l : tree) : tree :=
+  match l with
+  | [] => [n]
+  | x :: r => if n_name n <=? n_name x then n :: l else x :: insert_node n r
+  end.
+Definition sort_tree (t : tree) : tree := fold_right insert_node [] t.
+
 Inductive change := Removed | Changed (t : tree) | Unchanged.
 Inductive action :=
 | ANode (n : node) (changed : bool)        (* NodeAction::Node *)
@@ -335,10 +343,11 @@ Section Modifier.
           (match x' with Some y => y :: r' | None => r' end, cx || cr)
       end.
 
-  (* the tail of modify_tree: `if changed { save; (new_id != id).then_some(new_id) } else None` *)
+  (* the tail of modify_tree: `if changed { new_tree.nodes.sort_by(name); save; (new_id != id).then_some(new_id) }
+     else None` — the sort keeps a tree in name order when a visitor renamed nodes (repair's marker suffix) *)
   Definition finish (rd : bool) (old : tree) (res : tree * bool) : change :=
     let '(nt, ch) := if rd then res else ([], true) in
-    if ch && negb (tree_eqb nt old) then Changed nt else Unchanged.
+    if ch && negb (tree_eqb (sort_tree nt) old) then Changed (sort_tree nt) else Unchanged.
 
   (* one iteration of the `for node in tree` loop, including the recursive modify_tree *)
   Fixpoint modify_node (path : list N) (n : node) {struct n} : option node * bool :=
@@ -379,9 +388,12 @@ Section Rewrite.
     else let '(n', ch) := modn n in
          match n_kind n' with KDir => AVisit n' ch | _ => ANode n' ch end.
 
-  (* Rewriter::rewrite_tree *)
+  (* Rewriter::rewrite_tree: the nameless root (empty path) is not matched against the globs *)
   Definition rewrite_tree (path : list N) (t : tree) : change :=
-    if excl path true then Removed else modify_tree rw_visit (fun _ => true) path t.
+    match path with
+    | [] => modify_tree rw_visit (fun _ => true) path t
+    | _ => if excl path true then Removed else modify_tree rw_visit (fun _ => true) path t
+    end.
 End Rewrite.
 
 (* ------------------------------------------------------------------ repair *)
